@@ -257,121 +257,7 @@ func init() {
 						return ok && op == token.NEQ
 					}, false)}}, Sink: core.SuccessReturn(-1), Need: []Fact{"dup-result-nil"}, Min: 1}.Check(r)
 			}),
-			rule("R28d", "signature coverage under errReturn: VerifySignature sees every transaction not vouched for by a signature-covering digest", 2, func(r *Run) {
-				f := r.Fn("util.PreExecBlock")
-				if f == nil {
-					return
-				}
-				c := f.Ctx()
-				// the request that lets transactions skip verification must be keyed by FullHash
-				var reqHashes []ast.Expr
-				ast.Inspect(f.Body(), func(x ast.Node) bool {
-					as, ok := x.(*ast.AssignStmt)
-					if !ok {
-						return true
-					}
-					for i, l := range as.Lhs {
-						if len(core.StoresTo(c, &ast.AssignStmt{Lhs: []ast.Expr{l}, Tok: as.Tok, Rhs: as.Rhs}, "types.ReqCheckTxsExist.TxHashes")) > 0 && i < len(as.Rhs) {
-							reqHashes = append(reqHashes, as.Rhs[i])
-						}
-					}
-					return true
-				})
-				label := "util.PreExecBlock skip-verification filter is keyed by a signature-covering digest"
-				if len(reqHashes) == 0 {
-					// no filter at all: VerifySignature must get block.Txs
-					r.OK(label, r.W.Pos(f.Node().Pos()), "no mempool-existence filter present")
-				}
-				for _, e := range reqHashes {
-					full := core.CallsAny(txm+"FullHash", "types.(*TransactionCache).FullHash")(c, e)
-					if full {
-						r.OK(label, r.W.Pos(e.Pos()), "filter keyed by FullHash (covers the signature)")
-						continue
-					}
-					// Hash()-keyed filter: a transaction may be exempted only if its signature was
-					// compared with the pooled (already verified) one.  Find signature-comparing
-					// callees used in PreExecBlock and assume they report "different": then every
-					// transaction of the block must be appended to the list handed to VerifySignature.
-					var cmps []string
-					ast.Inspect(f.Body(), func(x ast.Node) bool {
-						call, ok := x.(*ast.CallExpr)
-						if !ok {
-							return true
-						}
-						callee := r.W.FuncOf(core.Callee(c.Info, call))
-						if callee == nil || callee.Sig().Results().Len() != 1 {
-							return true
-						}
-						cc := callee.Ctx()
-						sig, eq := false, false
-						ast.Inspect(callee.Body(), func(y ast.Node) bool {
-							if ex, ok := y.(ast.Expr); ok {
-								if core.CallAtom([]string{"bytes.Equal", "google.golang.org/protobuf/proto.Equal", "github.com/golang/protobuf/proto.Equal"})(cc, ex) {
-									eq = true
-								}
-							}
-							if id, ok := y.(*ast.Ident); ok && (id.Name == "GetSignature" || id.Name == "Signature" || id.Name == "FullHash") {
-								sig = true
-							}
-							return true
-						})
-						if sig && eq {
-							if whole, why := comparesWholeSignature(r, callee); whole {
-								cmps = append(cmps, callee.Name)
-							} else {
-								r.Fail("util.PreExecBlock: "+callee.Name+" compares the whole signature (type, public key and signature bytes)", r.W.Pos(callee.Node().Pos()),
-									why+": a block transaction that differs from the pooled, verified one in an uncompared signature field skips verification")
-							}
-						}
-						return true
-					})
-					ok := false
-					if len(cmps) > 0 {
-						unv := core.SinkPred{Label: "append to the to-be-verified list", Match: func(fl *core.Flow, n *core.GNode) bool { return false }}
-						_ = unv
-						fl := core.RunFlow(f, &core.FlowSpec{
-							AssumeObj: map[types.Object]core.Tri{f.Param(3): core.True},
-							FailCalls: []core.FailCall{{Callee: core.Names(cmps...), Idx: -1, Outcome: core.OFalse}},
-							Nodes: []core.NodeGen{{Fact: "queued-for-verification", Gen: func(c *core.Ctx, n *core.GNode) bool {
-								as, isAs := n.Ast.(*ast.AssignStmt)
-								if !isAs || len(as.Rhs) != 1 {
-									return false
-								}
-								call, isCall := ast.Unparen(as.Rhs[0]).(*ast.CallExpr)
-								return isCall && core.IsBuiltinCall(c.Info, call, "append") && len(call.Args) == 2 && core.Mentions("types.Block.Txs")(c, call.Args[1])
-							}}},
-							Foralls: []core.ForallGuard{{Fact: "all-queued", Inner: "queued-for-verification", Loop: core.RangesOver(core.Mentions("types.ReplyCheckTxsExist.ExistFlags"))}},
-						})
-						for _, n := range fl.G.Nodes {
-							if !fl.Live(n) {
-								continue
-							}
-							for _, e2 := range n.Succ {
-								if e2.LoopStmt != nil && e2.Kind.String() == "RangeDone" && core.RangesOver(core.Mentions("types.ReplyCheckTxsExist.ExistFlags"))(fl.C, e2.LoopStmt) {
-									if fl.EdgeIn[e2].Has("all-queued") {
-										ok = true
-									}
-								}
-							}
-						}
-					}
-					if ok {
-						r.OK(label, r.W.Pos(e.Pos()), fmt.Sprintf("Hash()-keyed filter, but a transaction is exempted only when %v reports an identical signature: assuming it reports a difference, every transaction is queued for verification", cmps))
-					} else {
-						r.Fail(label, r.W.Pos(e.Pos()), "transactions are exempted from signature verification when the mempool knows their Hash(), which does not cover Signature: a block carrying a pool transaction with a stripped or forged signature is accepted by nodes that hold it and rejected by nodes that do not")
-					}
-				}
-				core.Dominated{Fn: "util.PreExecBlock", Spec: &core.FlowSpec{
-					AssumeObj: map[types.Object]core.Tri{f.Param(3): core.True},
-					Assume: func(c *core.Ctx, e ast.Expr) core.Tri {
-						if op, ok := core.CmpAtom(c, e, core.Mentions("types.Block.Height"), core.IsConstInt(0)); ok && op == token.GTR {
-							return core.True
-						}
-						return core.Unknown
-					},
-					Calls: []core.CallGuard{isTrue("sig-ok", "types.VerifySignature")},
-				}, Sink: core.CallSink("util.ExecTx", "util.ExecKVMemSet"), Need: []Fact{"sig-ok"}, Min: 2}.Check(r)
-			}),
+			sigCoverageRule("R28d"),
 			rule("R28f", "start-up refills the duplicate window with the same extent it is configured with", 2, func(r *Run) {
 				// writer/reader agreement: the window constants given to newTxHashCache are the ones
 				// that bound the refill loop feeding txHeightCache.Add at start-up
@@ -420,5 +306,126 @@ func init() {
 					Allowed: []string{"blockchain.(*BlockChain).connectBlock", "blockchain.(*BlockChain).disconnectBlock", "blockchain.(*BlockChain).disBlock" /* operator-driven rollback tool: removes the tip block by block */}, Min: 2}.Check(r)
 			}),
 		},
+	})
+}
+
+// sigCoverageRule: signature coverage under errReturn — VerifySignature sees every transaction that is
+// not vouched for by a signature-covering digest (shared by C28 R28d, C27 R27g, C13 R13h).
+func sigCoverageRule(id string) core.Rule {
+	txm := "types.(*Transaction)."
+	return rule(id, "signature coverage under errReturn: VerifySignature sees every transaction not vouched for by a signature-covering digest", 2, func(r *Run) {
+		f := r.Fn("util.PreExecBlock")
+		if f == nil {
+			return
+		}
+		c := f.Ctx()
+		// the request that lets transactions skip verification must be keyed by FullHash
+		var reqHashes []ast.Expr
+		ast.Inspect(f.Body(), func(x ast.Node) bool {
+			as, ok := x.(*ast.AssignStmt)
+			if !ok {
+				return true
+			}
+			for i, l := range as.Lhs {
+				if len(core.StoresTo(c, &ast.AssignStmt{Lhs: []ast.Expr{l}, Tok: as.Tok, Rhs: as.Rhs}, "types.ReqCheckTxsExist.TxHashes")) > 0 && i < len(as.Rhs) {
+					reqHashes = append(reqHashes, as.Rhs[i])
+				}
+			}
+			return true
+		})
+		label := "util.PreExecBlock skip-verification filter is keyed by a signature-covering digest"
+		if len(reqHashes) == 0 {
+			// no filter at all: VerifySignature must get block.Txs
+			r.OK(label, r.W.Pos(f.Node().Pos()), "no mempool-existence filter present")
+		}
+		for _, e := range reqHashes {
+			full := core.CallsAny(txm+"FullHash", "types.(*TransactionCache).FullHash")(c, e)
+			if full {
+				r.OK(label, r.W.Pos(e.Pos()), "filter keyed by FullHash (covers the signature)")
+				continue
+			}
+			// Hash()-keyed filter: a transaction may be exempted only if its signature was
+			// compared with the pooled (already verified) one.  Find signature-comparing
+			// callees used in PreExecBlock and assume they report "different": then every
+			// transaction of the block must be appended to the list handed to VerifySignature.
+			var cmps []string
+			ast.Inspect(f.Body(), func(x ast.Node) bool {
+				call, ok := x.(*ast.CallExpr)
+				if !ok {
+					return true
+				}
+				callee := r.W.FuncOf(core.Callee(c.Info, call))
+				if callee == nil || callee.Sig().Results().Len() != 1 {
+					return true
+				}
+				cc := callee.Ctx()
+				sig, eq := false, false
+				ast.Inspect(callee.Body(), func(y ast.Node) bool {
+					if ex, ok := y.(ast.Expr); ok {
+						if core.CallAtom([]string{"bytes.Equal", "google.golang.org/protobuf/proto.Equal", "github.com/golang/protobuf/proto.Equal"})(cc, ex) {
+							eq = true
+						}
+					}
+					if id, ok := y.(*ast.Ident); ok && (id.Name == "GetSignature" || id.Name == "Signature" || id.Name == "FullHash") {
+						sig = true
+					}
+					return true
+				})
+				if sig && eq {
+					if whole, why := comparesWholeSignature(r, callee); whole {
+						cmps = append(cmps, callee.Name)
+					} else {
+						r.Fail("util.PreExecBlock: "+callee.Name+" compares the whole signature (type, public key and signature bytes)", r.W.Pos(callee.Node().Pos()),
+							why+": a block transaction that differs from the pooled, verified one in an uncompared signature field skips verification")
+					}
+				}
+				return true
+			})
+			ok := false
+			if len(cmps) > 0 {
+				unv := core.SinkPred{Label: "append to the to-be-verified list", Match: func(fl *core.Flow, n *core.GNode) bool { return false }}
+				_ = unv
+				fl := core.RunFlow(f, &core.FlowSpec{
+					AssumeObj: map[types.Object]core.Tri{f.Param(3): core.True},
+					FailCalls: []core.FailCall{{Callee: core.Names(cmps...), Idx: -1, Outcome: core.OFalse}},
+					Nodes: []core.NodeGen{{Fact: "queued-for-verification", Gen: func(c *core.Ctx, n *core.GNode) bool {
+						as, isAs := n.Ast.(*ast.AssignStmt)
+						if !isAs || len(as.Rhs) != 1 {
+							return false
+						}
+						call, isCall := ast.Unparen(as.Rhs[0]).(*ast.CallExpr)
+						return isCall && core.IsBuiltinCall(c.Info, call, "append") && len(call.Args) == 2 && core.Mentions("types.Block.Txs")(c, call.Args[1])
+					}}},
+					Foralls: []core.ForallGuard{{Fact: "all-queued", Inner: "queued-for-verification", Loop: core.RangesOver(core.Mentions("types.ReplyCheckTxsExist.ExistFlags"))}},
+				})
+				for _, n := range fl.G.Nodes {
+					if !fl.Live(n) {
+						continue
+					}
+					for _, e2 := range n.Succ {
+						if e2.LoopStmt != nil && e2.Kind.String() == "RangeDone" && core.RangesOver(core.Mentions("types.ReplyCheckTxsExist.ExistFlags"))(fl.C, e2.LoopStmt) {
+							if fl.EdgeIn[e2].Has("all-queued") {
+								ok = true
+							}
+						}
+					}
+				}
+			}
+			if ok {
+				r.OK(label, r.W.Pos(e.Pos()), fmt.Sprintf("Hash()-keyed filter, but a transaction is exempted only when %v reports an identical signature: assuming it reports a difference, every transaction is queued for verification", cmps))
+			} else {
+				r.Fail(label, r.W.Pos(e.Pos()), "transactions are exempted from signature verification when the mempool knows their Hash(), which does not cover Signature: a block carrying a pool transaction with a stripped or forged signature is accepted by nodes that hold it and rejected by nodes that do not")
+			}
+		}
+		core.Dominated{Fn: "util.PreExecBlock", Spec: &core.FlowSpec{
+			AssumeObj: map[types.Object]core.Tri{f.Param(3): core.True},
+			Assume: func(c *core.Ctx, e ast.Expr) core.Tri {
+				if op, ok := core.CmpAtom(c, e, core.Mentions("types.Block.Height"), core.IsConstInt(0)); ok && op == token.GTR {
+					return core.True
+				}
+				return core.Unknown
+			},
+			Calls: []core.CallGuard{isTrue("sig-ok", "types.VerifySignature")},
+		}, Sink: core.CallSink("util.ExecTx", "util.ExecKVMemSet"), Need: []Fact{"sig-ok"}, Min: 2}.Check(r)
 	})
 }
